@@ -440,6 +440,14 @@ def selftest():
     r = engine.run_unit(vac)
     if r['obligations']:
         problems.append('a contradictory precondition still produced obligations')
+    # the executor against CPython: the same real functions on the same concrete arguments, natively and through the interpreter
+    from pyvc import diffcheck
+    n, bad, secs = diffcheck.run()
+    print(f"differential self-test: {n} concrete calls of real pyTRS functions, natively and through pyvc: {len(bad)} differences ({secs:.0f}s)")
+    for fn, args, native, got in bad[:5]:
+        problems.append(f'executor differs from CPython on {fn}{args!r:.120}: native {native!r:.200} vs pyvc {got!r:.200}')
+    if n == 0:
+        problems.append('differential self-test ran zero samples')
     return problems
 
 
